@@ -202,3 +202,49 @@ def run(ctx):
     have = {getattr(k, 'name', str(k)) for k in table}
     ctx.ob('C04.R1', 'localiser-table-total', TEMPL, 'ARG_KIND_TO_CODE_LOCALIZE has an entry for every ArgKind member',
            members == have and len(members) >= 5, f'members {sorted(members)} table {sorted(have)}')
+
+    _isomorphic(ctx)
+
+
+def _isomorphic(ctx):
+    """R5: whose signature is introspected.  @beartype checks a ``functools.wraps`` wrapper against the
+    *wrapped* callable's signature only when the wrapper itself is signature-transparent."""
+    from sa.fold import FuncVal, _Abort, _Raise, _call_function
+    from sa.wrapgen import AFunc
+    ctx.rule('C04.R5', 'is_func_wrapper_isomorphic(wrapper) — which decides that a functools.wraps wrapper is checked '
+             'against the signature of the callable it wraps — is true exactly when the wrapper declares no named '
+             'parameter of any kind (positional-only, flexible, keyword-only) and at least one of *args / **kwargs; '
+             'interpreted exhaustively over {positional-only, flexible, keyword-only, *args, **kwargs} present / absent')
+    W = _wrap.wrapgen(ctx)
+    F = W.F
+    fn = F.const('beartype._util.func.utilfuncwrap', 'is_func_wrapper_isomorphic')
+    ctx.require(isinstance(fn, FuncVal), 'anchor vanished: is_func_wrapper_isomorphic')
+    where = 'beartype/_util/func/utilfuncwrap.py:0'
+    n = 0
+    for posonly in ((), ('p',)):
+        for flex in ((), ('x',)):
+            for kwonly in ((), ('k',)):
+                for va in (None, 'args'):
+                    for vk in (None, 'kwargs'):
+                        n += 1
+                        w = AFunc('w', posonly, flex, va, kwonly, vk, 'sync', {})
+                        w.__wrapped__ = AFunc('inner', (), ('a',), None, (), None, 'sync', {})
+                        try:
+                            out = _call_function(F, fn, [w], {}, 1)
+                        except (_Abort, _Raise) as ex:
+                            ctx.require(False, f'cannot interpret is_func_wrapper_isomorphic: {ex}')
+                        want = not (posonly or flex or kwonly) and bool(va or vk)
+                        sig = ', '.join(list(posonly) + (['/'] if posonly else []) + list(flex) + ([f'*{va}'] if va else (['*'] if kwonly else []))
+                                        + list(kwonly) + ([f'**{vk}'] if vk else []))
+                        ctx.ob('C04.R5', f'isomorphic:({sig})', where,
+                               'a wrapper is treated as signature-transparent iff it has no named parameter and takes '
+                               '*args and/or **kwargs', out is want,
+                               f'is_func_wrapper_isomorphic(def w({sig})) evaluates to {out!r}, expected {want}: the '
+                               f'wrapper\'s own parameters would be checked against (or hidden by) the wrapped callable\'s signature')
+    ctx.floor('C04.R5', n, 32, 'wrapper signature shapes')
+    # the decorator consults it for the wrapper it was given
+    cm = ctx.repo.mod('beartype._check.cls.call.calldatadecorfunc')
+    uses = [c for c in ast.walk(cm.tree) if isinstance(c, ast.Call) and dotted(c.func) in ('unwrap_func_all_isomorphic', 'is_func_wrapper_isomorphic')]
+    ctx.ob('C04.R5', 'reinit:unwraps-only-isomorphic-wrappers', cm.where(uses[0]) if uses else 'beartype/_check/cls/call/calldatadecorfunc.py:0',
+           'the decorated callable is unwrapped through unwrap_func_all_isomorphic only', bool(uses) and not any(
+               isinstance(c, ast.Call) and dotted(c.func) == 'unwrap_func_all' for c in ast.walk(cm.tree)), f'{[norm(c)[:60] for c in uses]}')
